@@ -22,15 +22,19 @@ BOUNDS = {
              'names, 8-bit value, LF line ends, Content-Transfer-Encoding '
              'present), separated by CRLF CRLF or LF LF: parse + flatten, '
              'copy(), pickle round trip, re-parse of the flattened output; '
-             'encode_7bit() without encoder; encode_7bit(encoder) on 6 '
+             'encode_7bit() without encoder; 11 malformed header blocks (no '
+             'colon, stray 8-bit line, over-long lines, NUL, empty) x 4 '
+             'separators (CRLF CRLF, LF LF: every body of 2 bytes; single '
+             'CRLF or none: 1 arbitrary byte appended) - parse/flatten/copy/'
+             'pickle never raise; encode_7bit(encoder) on 6 '
              'concrete UTF-8 bodies x 2 encoders x 3 header blocks',
     'thorough': 'n<=6',
 }
-OUTSIDE = ('header-field fidelity for arbitrary (symbolic) header blocks and '
-           '"never raises on arbitrary byte strings": both are properties of '
+OUTSIDE = ('header-field fidelity and "never raises" for arbitrary (symbolic) '
+           'header blocks: both are properties of '
            'CPython\'s email package under symbolic input, which cannot be '
-           'encoded; header blocks come from a concrete menu and are checked '
-           'natively.  7-bit conversion with an encoder is evaluated natively '
+           'encoded; header blocks (well-formed and malformed) come from a '
+           'concrete menu and are parsed natively.  7-bit conversion with an encoder is evaluated natively '
            'on concrete bodies (stdlib code), not by the solver')
 STUBS = ['pickle = structural box for the symbolic body']
 ASSUMPTIONS = ['line ends of the decoded text are compared modulo CRLF/LF '
@@ -50,6 +54,21 @@ HEADERS = [
     b'X-Empty:\r\nSubject: x',
     b'MIME-Version: 1.0\r\nContent-Type: text/plain; charset="utf-8"',
 ]
+# not well-formed header blocks (weaker claim: nothing raises, the bytes
+# behind the first blank line stay at the end of the flattened message)
+MALFORMED = [
+    b'just some text',
+    b'na\xc3\xafve text, no colon',
+    b'Subject: x\r\ngr\xc3\xbc\xc3\x9fe stray line',
+    b'\xff\xfe\x00',
+    b'no colon line\r\nSubject: x',
+    b'X' * 1200,
+    b'Subject: ' + b'y' * 1100,
+    b': empty name',
+    b' leading space: x',
+    b'Subject: x\r\n \r\nX-After: blank-looking fold',
+    b'',
+]
 TEXTS = ['héllo wörld\r\n', 'plain ascii\r\n',
          '中文 line one\r\nline two ü\r\n', 'é',
          'a' * 80 + ' é\r\n', '.\r\né.\r\n']
@@ -64,6 +83,9 @@ def cells(tier):
                 continue
             out.append({'kind': 'body', 'h': h, 'lf': lf,
                         'n': n if h < 2 else n - 1})
+    for m in range(len(MALFORMED)):
+        out.append({'kind': 'malformed', 'm': m, 'n': 2 if tier == 'quick'
+                    else 3})
     out.append({'kind': 'sevenbit', 'n': 3})
     out.append({'kind': 'encoder'})
     return out
@@ -143,6 +165,46 @@ def run_body(cell):
         api.fail('reparse-raised', exc=type(e).__name__, **info)
         return
     api.prove(And(h2 == fh, b2 == fb), 'reparse-not-a-fixed-point', **info)
+
+
+def run_malformed(cell):
+    from slimta.envelope import Envelope
+    hdr = MALFORMED[cell['m']]
+    n = cell['n']
+    body = api.sbytes('body', n)
+    sep = [b'\r\n\r\n', b'\n\n', b'\r\n', b''][api.choice('sep', 4)]
+    if sep in (b'\r\n', b''):
+        # no complete boundary: the symbolic bytes are (or may be) part of
+        # the header block, which the stdlib parser needs concrete - one
+        # arbitrary byte (256-way fork) is what is affordable
+        body = body[:1]
+        n = 1
+    data = hdr + sep + body
+    env = Envelope('s@z', ['r@x'])
+    info = dict(m=cell['m'], sep=sep.decode(), n=n)
+    try:
+        env.parse(data)
+        fh, fb = env.flatten()
+        cp = env.copy()
+        ch, cb = cp.flatten()
+        if api.MODE == 'sym':
+            from symx import rt
+            pk = rt._pickle_loads(rt._pickle_dumps(
+                env, pickle.HIGHEST_PROTOCOL))
+        else:
+            pk = pickle.loads(pickle.dumps(env, pickle.HIGHEST_PROTOCOL))
+        ph, pb = pk.flatten()
+    except api.Unsupported:
+        raise
+    except Exception as e:
+        api.fail('raised-on-arbitrary-bytes', exc=type(e).__name__, **info)
+        return
+    api.observe('flat', fh + fb)
+    api.prove(And(cb == fb, ch == fh), 'copy-differs', **info)
+    api.prove(And(pb == fb, ph == fh), 'pickle-round-trip-differs', **info)
+    if sep in (b'\r\n\r\n', b'\n\n'):
+        api.prove(fb[len(fb) - n:] == body if n else True,
+                  'body-changed', **info)
 
 
 def run_sevenbit(cell):
